@@ -435,7 +435,7 @@ func matrix(c *harness.Ctx, i int) {
 			return cmd
 		})
 		if err != nil {
-			c.Inconclusive("chunk-server: %v", err)
+			c.Skip("chunk-server: %v", err)
 			return
 		}
 		defer dsu.StopServerCmd(cmd)
@@ -598,7 +598,7 @@ func indexes(c *harness.Ctx) {
 			return cmd
 		})
 		if err != nil {
-			c.Inconclusive("index-server: %v", err)
+			c.Skip("index-server: %v", err)
 			return
 		}
 		defer dsu.StopServerCmd(cmd)
@@ -726,7 +726,7 @@ func sshSession(c *harness.Ctx) {
 	c.LogInfo()
 	s, err := sshStore(store, 1)
 	if err != nil {
-		c.Inconclusive("ssh shim: %v", err)
+		c.Skip("ssh shim: %v", err)
 		return
 	}
 	defer s.Close()
@@ -798,7 +798,7 @@ func hasSemantics(c *harness.Ctx) {
 	case "ssh":
 		s, err := sshStore(store, 1)
 		if err != nil {
-			c.Inconclusive("ssh shim: %v", err)
+			c.Skip("ssh shim: %v", err)
 			return
 		}
 		defer s.Close()
@@ -836,7 +836,7 @@ func hasSemantics(c *harness.Ctx) {
 		u, _ := url.Parse("sftp://localhost" + store)
 		s, err := desync.NewSFTPStore(u, desync.StoreOptions{N: 1})
 		if err != nil {
-			c.Inconclusive("sftp shim: %v", err)
+			c.Skip("sftp shim: %v", err)
 			return
 		}
 		ok := check("healthy SFTP store", s, "true", "false")
@@ -848,7 +848,7 @@ func hasSemantics(c *harness.Ctx) {
 		defer os.Unsetenv("SHIM_SFTP_FAULT")
 		s2, err := desync.NewSFTPStore(u, desync.StoreOptions{N: 1})
 		if err != nil {
-			c.Inconclusive("sftp shim: %v", err)
+			c.Skip("sftp shim: %v", err)
 			return
 		}
 		defer s2.Close()
@@ -881,7 +881,7 @@ func sshBehindHTTP(c *harness.Ctx) {
 	c.LogInfo()
 	s, err := sshStore(store, 1)
 	if err != nil {
-		c.Inconclusive("ssh shim: %v", err)
+		c.Skip("ssh shim: %v", err)
 		return
 	}
 	defer s.Close()
